@@ -90,6 +90,8 @@ REDUCED = ["2", "0", "oo", "meter", "second", "kilo", "Q3m", "Q0len", "x"]
 EXPONENTS = ["2", "-3", "1/2", "1.5", "0", "meter", "Q5", "Q0len", "radian", "oo"]
 COMM = ("Add", "Mul", "Min", "Max")
 UNARY = ("Abs", "sin", "exp", "log", "sqrt")
+BINARY = ("besselj", "Mod", "beta")  # functions of two arguments that stay unevaluated
+BIN_ARGS = ["2", "1/2", "0", "meter", "Q3m", "Q5", "Q0len", "radian", "x"]
 
 
 def build(d: Any) -> Any:
@@ -111,6 +113,8 @@ def build(d: Any) -> Any:
         return sp.Abs(a[0])
     if op == "sqrt":
         return sp.sqrt(a[0])
+    if op in BINARY:
+        return getattr(sp, op)(a[0], a[1])
     return getattr(sp, op)(a[0])
 
 
@@ -126,6 +130,9 @@ def level1(leaves: list[str], tern: list[str], exps: list[str]) -> Iterator[Any]
     for op in UNARY:
         for a in leaves:
             yield (op, a)
+    for op in BINARY:
+        for a, b in itertools.product(BIN_ARGS, repeat=2):
+            yield (op, a, b)
 
 
 def level_up(trees: list[Any], partners: list[str], exps: list[str], bases: list[str]) -> Iterator[Any]:
@@ -139,6 +146,10 @@ def level_up(trees: list[Any], partners: list[str], exps: list[str], bases: list
             yield ("Pow", b, t)
         for op in UNARY:
             yield (op, t)
+        for op in BINARY:
+            for p in ("2", "meter", "Q5"):
+                yield (op, t, p)
+                yield (op, p, t)
 
 
 def space(thorough: bool) -> Iterator[Any]:
@@ -254,7 +265,11 @@ def ref(e: Any) -> tuple[Any, Any]:
         for (kv, kd) in kids:
             if not isinstance(kd, dims.AnyDim) and not kd.dimensionless:
                 raise Refuse(f"argument of {e.func} has dimension {kd}")
-        v = e.func(*[kv for kv, _ in kids])
+        try:
+            v = e.func(*[kv for kv, _ in kids])
+        except (ZeroDivisionError, ValueError, TypeError, AttributeError) as ex:
+            # AttributeError: sympy's Mod on NaN
+            raise DontCare(f"{e.func} is undefined for these values: {ex}") from ex
         if v.has(sp.zoo) or v.has(sp.AccumBounds):
             raise DontCare("complex infinity / accumulation bounds")
         return _absorb(v, dims.ONE)
@@ -280,10 +295,11 @@ def judge(e: Any) -> tuple[str, str]:
         got: Any = (q.scale_factor, q.dimension)
     except REFUSALS as ex:
         got = ex
-    except (RecursionError, OverflowError) as ex:
+    except (RecursionError, OverflowError, ZeroDivisionError, AttributeError) as ex:
         got = ex
     if isinstance(want, DontCare):
-        if isinstance(got, Exception) and not isinstance(got, REFUSALS + (OverflowError, )):
+        if isinstance(got, Exception) and not isinstance(got, REFUSALS + (OverflowError,
+                ZeroDivisionError, AttributeError)):
             return "dontcare", f"unexpected exception {type(got).__name__}: {short(got)}"
         return "dontcare", ""
     if isinstance(want, Refuse):
